@@ -11,6 +11,17 @@
 #error "RKSIM_LANE_NAME"
 #endif
 
+#if RKSIM_LANE_BIT == 32
+extern "C" void *scalable_aligned_malloc(size_t, size_t);
+extern "C" void scalable_aligned_free(void *);
+void rksim_warm_tbbmalloc()
+{
+  void *a = scalable_aligned_malloc(100, 64), *b = scalable_aligned_malloc(1 << 20, 4096);
+  scalable_aligned_free(a);
+  scalable_aligned_free(b);
+}
+#endif
+
 extern "C" const char *rksim_lane_name() { return RKSIM_LANE_NAME; }
 extern "C" unsigned rksim_lane_bit() { return RKSIM_LANE_BIT; }
 
@@ -49,6 +60,12 @@ extern "C" void rksim_warmup()
     p.set_value("x");
     (void)f.get();
   }
+#if RKSIM_LANE_BIT == 32
+  {
+    // one-time initialisation of the real tbbmalloc
+    rksim_warm_tbbmalloc();
+  }
+#endif
   (void)std::to_string(1.5);
   (void)std::this_thread::get_id();
   try {
